@@ -128,7 +128,7 @@ def build_xml(spec):
     to_sign = []
     for a, o in plain + enc:
         if a.get("sig"):
-            o.signature = sigver.pre_signature_part(o.id, env.cert_b64("idp"))
+            o.signature = sigver.pre_signature_part(o.id, env.cert_b64("idp"), sign_alg=spec.get("sign_alg"), digest_alg=spec.get("digest_alg"))
             to_sign.append((class_name(o), o.id, a["sig"]))
     if enc:
         r.encrypted_assertion = []
@@ -137,7 +137,7 @@ def build_xml(spec):
             ea.add_extension_element(o)
             r.encrypted_assertion.append(ea)
     if spec.get("sig"):
-        r.signature = sigver.pre_signature_part(r.id, env.cert_b64("idp"))
+        r.signature = sigver.pre_signature_part(r.id, env.cert_b64("idp"), sign_alg=spec.get("sign_alg"), digest_alg=spec.get("digest_alg"))
     text = str(r)
     # inside-out: assertions first (also the ones that will be encrypted), then encryption, then the response
     for node_name, node_id, how in to_sign:
